@@ -28,7 +28,7 @@ MCInit ==
   /\ vers = <<AsTags(RulesV(1))>> /\ done = 1 /\ pend = NoPend /\ model = 1 /\ upq = <<>> /\ fin = <<>>
   /\ pin = <<>> /\ stage = <<>>
 
-Arrive(q) == /\ ArriveCore(q, {"req"}, <<"*">>, FALSE, FALSE)
+Arrive(q) == /\ ArriveCore(q, {"req"}, <<"*">>, FALSE, FALSE, "none")
              /\ pin' = pin /\ stage' = (q :> 0) @@ stage
 Pop(q) == \E i \in Insts : /\ PopCore(q, i, Cardinality(SameList(i, free \ {i})))
                            /\ pin' = (q :> inst[i]) @@ pin /\ UNCHANGED stage
